@@ -4,32 +4,26 @@ import (
 	"fmt"
 	"time"
 
-	"github.com/bilibili/gengine/engine"
+	"github.com/bilibili/gengine/builder"
+	"github.com/bilibili/gengine/context"
 )
 
-const rules = `
-rule "r0" salience 10 begin
-  tin(req.Id)
-  resp.Id = req.Id
-  return req.Id
-end
-rule "r1" salience 5 begin
-  return req.Id + 100
-end
-rule "r2" salience 1 begin
-  return req.Id + 200
-end
-`
-
 func main() {
-	apis := map[string]interface{}{"tin": func(int64) {}}
+	rb := builder.NewRuleBuilder(context.NewDataContext())
+	if err := rb.BuildRuleFromString(`rule "a" "d" salience 2 begin return "a:2:x" end rule "b" "d" salience 1 begin return "b:1:x" end`); err != nil {
+		panic(err)
+	}
 	t := time.Now()
-	n := 200
+	n := 500
 	for i := 0; i < n; i++ {
-		_, err := engine.NewGenginePool(1, 2, 1, rules, apis)
-		if err != nil {
+		if err := rb.BuildRuleWithIncremental(`rule "c" "d" salience 3 begin return "c:3:y" end`); err != nil {
 			panic(err)
 		}
 	}
-	fmt.Println("NewGenginePool:", time.Since(t)/time.Duration(n))
+	fmt.Println("incremental one tiny rule:", time.Since(t)/time.Duration(n))
+	t = time.Now()
+	for i := 0; i < n; i++ {
+		rb.RemoveRules([]string{"c"})
+	}
+	fmt.Println("remove:", time.Since(t)/time.Duration(n))
 }
